@@ -112,6 +112,50 @@ def one_module(chk, E, orc, prog, gflags, extra_env, label, fails, diffs):
         S.close()
 
 
+def tagged_module(chk, E, fails, gflags):
+    """build flags must reach all three commands: a file that only exists under -tags=pro"""
+    mod = "gv.test/tagged-%d" % len(gflags)
+    files = {"go.mod": "module %s\n\ngo 1.26\n" % mod,
+             "main.go": 'package main\n\nimport (\n\t"fmt"\n\t"%s/lib"\n)\n\nfunc main() { fmt.Println(lib.Flavor(), lib.Limit) }\n' % mod,
+             "lib/lib.go": "package lib\n\nvar Limit = limit()\n",
+             "lib/flavor_pro.go": "//go:build pro\n\npackage lib\n\ntype ProOptions struct{ Seats int }\n\nvar ProSeats = ProOptions{Seats: 50}\n\nfunc Flavor() string { return \"pro\" }\n\nfunc limit() int { return ProSeats.Seats }\n",
+             "lib/flavor_free.go": "//go:build !pro\n\npackage lib\n\nfunc Flavor() string { return \"free\" }\n\nfunc limit() int { return 3 }\n"}
+    root = E.write_module("tagged%d" % len(gflags), files)
+    dbg = os.path.join(E.scratch, "tagged_debug%d" % len(gflags))
+    b = E.run_garble(gflags + ["-debugdir=" + dbg], ["build", "-tags=pro", "-o", os.path.join(root, "out"), "."], root)
+    chk.count_cases(["tagged|%s" % " ".join(gflags)])
+    if b.returncode != 0:
+        chk.notes.append("tagged build failed: " + b.stderr[-300:]); return
+    m = E.run_garble(gflags, ["map", "-tags=pro", "./..."], root)
+    if m.returncode != 0:
+        fails.append({"why": "garble map -tags=pro fails on a module that garble build -tags=pro accepts", "detail": m.stderr[-600:], "key": "map-fails"}); return
+    mp = json.loads(m.stdout)
+    ip = mod + "/lib"
+    z, err = identzip(os.path.join(root, "lib", "flavor_pro.go"), os.path.join(dbg, "garbled", ip, "flavor_pro.go"))
+    if z is None:
+        chk.notes.append("identzip on the tagged file: " + err); return
+    used = {orig: new for (orig, new) in z.values()}
+    listed = dict(mp.get(ip, {}).get("objects", {}))
+    st = chk.cov["streams"].setdefault("build_flags_reach_map_and_reverse", {"modules": 0, "objects": 0})
+    st["modules"] += 1
+    back = []
+    for name in ("ProOptions", "ProSeats", "Flavor"):
+        st["objects"] += 1
+        if name not in listed:
+            fails.append({"why": "garble map run with the build's flags omits an object that only exists under those flags", "detail": {"flags": "-tags=pro", "object": name}, "key": "map-ignores-build-flags"})
+        elif listed[name] != used.get(name):
+            fails.append({"why": "garble map run with the build's flags reports a different name than the build uses", "detail": {"flags": "-tags=pro", "object": name, "map": listed[name], "build": used.get(name)}, "key": "map-ignores-build-flags"})
+        else:
+            back.append((listed[name], name))
+    if back:
+        tf = os.path.join(E.scratch, "tagged_names%d.txt" % len(gflags))
+        open(tf, "w").write("".join(o + "\n" for o, _ in back))
+        r = E.run_garble(gflags, ["reverse", "-tags=pro", ".", tf], root)
+        for (o, n), g in zip(back, r.stdout.split("\n")):
+            if g != n:
+                fails.append({"why": "garble reverse run with the build's flags does not restore a name of a file selected by those flags", "detail": {"obfuscated": o, "expected": n, "got": g}, "key": "reverse-ignores-build-flags"})
+
+
 def main(tier, replay=None):
     chk = core.Check(PID, tier)
     core.build_tools()
@@ -128,6 +172,9 @@ def main(tier, replay=None):
             if ggmode:
                 extra = {"GOGARBLE": prog.ipath(prog.libs[0]) + "," + prog.mod}
             one_module(chk, E, orc, prog, gflags, extra, "m%d" % i, fails, diffs)
+        tagged_module(chk, E, fails, [])
+        if tier == "thorough":
+            tagged_module(chk, E, fails, ["-seed=o9WDTZ4CN4w"])
     finally:
         E.cleanup()
     if diffs:
